@@ -236,6 +236,28 @@ def cut_by_edges(body, start, target_blocks, cut_edges, also_blocks=()):
     return not (set(target_blocks) & r)
 
 
+def await_pred(aw):
+    """predicate selecting the value term of one particular `.await` (terms carry the block of the awaited call)"""
+    return lambda x: isinstance(x, tuple) and len(x) == 4 and x[0] == "await" and x[3] == aw.call_bb
+
+
+def failure_is_error(program, body, pred, terms=None):
+    """Error discipline for a fallible value: it is tested somewhere (`?`, match, if let, is_err ...), and from every
+    edge on which it was *not* found Ok/Some no Ok return of `body` is reachable.  A result that is dropped (`.ok()`,
+    `let _ =`, `unwrap_or*`) has no test; a result whose Err arm falls through to success has an Ok after a failure edge.
+    -> (holds, witness string, ok edges, other edges)"""
+    ok, bad = success_edges(program, body, pred, terms)
+    if not ok and not bad:
+        return False, "the value is never tested: its error is dropped", ok, bad
+    oks = [s["bb"] for s in outcome_sites(body) if s["kind"] == "Ok" and s["path"] == ()]
+    for sb, sc in bad:
+        r = body.reachable(sc, follow_yield_drop=False)
+        hit = [o for o in oks if o in r]
+        if hit:
+            return False, "an Ok return (bb%d) is reachable from the failure edge bb%d->bb%d" % (hit[0], sb, sc), ok, bad
+    return True, "tested at %s; no Ok return is reachable from a failure edge" % sorted({sb for sb, sc in ok + bad}), ok, bad
+
+
 def cut_by_success(program, body, pred, target_blocks, terms=None, start=0):
     """Every path start ->* target passes an edge asserting that a value satisfying `pred` is Some/Ok/Continue — whichever
     idiom tests it (`?`, match, if let, let else, is_ok()).  -> (holds, success edges)"""
